@@ -388,7 +388,7 @@ func (w world) RunCase(t *tape.Tape, st *super.Stats) *super.Violation {
 	// base text
 	var base string
 	var baseRoot *genyang.Stmt // the statement tree behind base, when there is one
-	kind := t.Pick(6, 2, 1, 4)
+	kind := t.Pick(6, 4, 1, 4)
 	if t.Rare(40) {
 		kind = 4
 	}
@@ -420,6 +420,9 @@ func (w world) RunCase(t *tape.Tape, st *super.Stats) *super.Violation {
 	case 0, 1, 3:
 		set := genyang.GenerateSet(t, kind == 1)
 		m := set.Mods[t.Draw(len(set.Mods))]
+		if len(set.Touched) > 0 && t.Draw(4) > 0 {
+			m = set.Touched[t.Draw(len(set.Touched))] // the module an ill-formedness operator worked on
+		}
 		root := m.Root
 		if kind == 3 {
 			// statement-level damage: the text stays well-formed, the statement rules break
